@@ -12,7 +12,8 @@
      entry   ::= <N or x<hex>>:<r>:<d>      decimal levels
    Commands:
      c03.shred_rows <schema> <row> ...      -> columns of shred_rows
-     c03.batch <0|1> <schema> <row> ...     -> columns of shred_batch (0 = one call per row, 1 = maximal runs)
+     c03.batch <0|1|2> <schema> <row> ...   -> columns of shred_batch (0 = one call per row, 1 = maximal runs,
+                                               2 = nullIndex + the bitmap run scanner)
      c03.asm <schema> <nrows> <fuel> <columns> -> rows separated by spaces, or FAIL
      c03.maxlevels <schema>                 -> r:d,r:d,...
      c03.scan <words hex,comma separated> <n hex>    -> isnull:start:end,... (decimal)
@@ -120,7 +121,10 @@ let () =
   register "c03.batch" (wrap (function
     | pol :: sch :: rows ->
         let s = parse_schema sch in
-        let chunks = if pol = "0" then (fun _ col -> singletons col) else (fun _ col -> max_runs col) in
+        let chunks =
+          if pol = "0" then (fun _ col -> singletons col)
+          else if pol = "1" then (fun _ col -> max_runs col)
+          else (fun _ col -> scan_chunks col) in
         print_columns (shred_batch chunks s (List.map parse_value rows))
     | _ -> failwith "c03.batch args"));
   register "c03.asm" (wrap (function
